@@ -424,3 +424,8 @@ def run(ctx):
     kf = {x for x in decoders(fnew, fev, "kms") if "Kms" in x}
     ke = {x for x in decoders(enew, eev, "kms") if "Kms" in x}
     ctx.check("sibling-semantics", "kms_protection-parser", kf == ke and kf, "both loaders parse kms_protection with KmsProtection::from_str", "kms_protection parsing differs: %s vs %s" % (kf, ke))
+
+
+def fixture(fctx):
+    import fixture_checks
+    return fixture_checks.lossy_cast_alive(fctx)
